@@ -171,6 +171,70 @@ func c18ImportInverse(r *Run) {
 	if nLoops < 5 {
 		r.bad("C18.R7", "import-loop|count", "-", "importer loops found", fmt.Sprintf("only %d loops over exported lists with a store write found under InitGenesis", nLoops))
 	}
+	// ---- (a') genesis validation keeps one "already seen" set per list: a set that is reused for the next
+	// list without being emptied rejects states in which two lists legitimately share a key (two queues
+	// keyed by the same epoch)
+	{
+		n := 0
+		for _, v := range w.allViews() {
+			if !strings.HasPrefix(v.ID(), "x/") || !strings.Contains(v.ID(), "/types.") || !strings.Contains(v.Decl.Name.Name, "Validate") || !inScopeFile(w.relFile(v.Decl.Pos())) {
+				continue
+			}
+			// loops (direct statements of the function body) that use a map declared outside them as a seen-set
+			type use struct {
+				loop ast.Stmt
+				m    types.Object
+			}
+			var uses []use
+			for _, st := range v.Decl.Body.List {
+				rs, isR := st.(*ast.RangeStmt)
+				if !isR {
+					continue
+				}
+				seen := map[types.Object]bool{}
+				ast.Inspect(rs.Body, func(nd ast.Node) bool {
+					as, ok := nd.(*ast.AssignStmt)
+					if !ok || len(as.Lhs) != 1 {
+						return true
+					}
+					ix, isIx := stripParens(as.Lhs[0]).(*ast.IndexExpr)
+					if !isIx {
+						return true
+					}
+					o := v.objOf(ix.X)
+					if o == nil || !declaredOutside(o, rs.Body) {
+						return true
+					}
+					if _, isMap := o.Type().Underlying().(*types.Map); isMap && strings.Contains(exprString(as.Rhs[0]), "struct{}{}") {
+						seen[o] = true
+					}
+					return true
+				})
+				for o := range seen {
+					uses = append(uses, use{rs, o})
+				}
+			}
+			for i := 0; i < len(uses); i++ {
+				for j := i + 1; j < len(uses); j++ {
+					if uses[i].m != uses[j].m || uses[i].loop == uses[j].loop {
+						continue
+					}
+					n++
+					reset := false
+					for _, st := range v.Decl.Body.List {
+						as, isAs := st.(*ast.AssignStmt)
+						if isAs && st.Pos() > uses[i].loop.End() && st.End() < uses[j].loop.Pos() && len(as.Lhs) == 1 && v.objOf(as.Lhs[0]) == uses[i].m && isFreshContainer(as.Rhs[0]) {
+							reset = true
+						}
+					}
+					r.check(reset, "C18.R7", "seen-set-per-list|"+v.ID()+"|"+uses[i].m.Name()+"@"+v.pos(uses[j].loop), v.pos(uses[j].loop), "the duplicate check of each exported list starts from an empty set", v.ID()+" reuses the seen-set "+uses[i].m.Name()+" of the loop at "+v.pos(uses[i].loop)+" for the loop at "+v.pos(uses[j].loop)+" without emptying it: an exported state in which both lists hold the same key fails validation as a 'duplicate'")
+				}
+			}
+		}
+		if n == 0 {
+			r.bad("C18.R7", "seen-set-per-list|none", "-", "reused seen-sets found", "no genesis validation reuses a seen-set across lists (matcher lost its anchor)")
+		}
+	}
 	// ---- (b)
 	type fieldKey struct {
 		owner string
